@@ -36,10 +36,11 @@ Definition gcdI (a b : Z) : Z := Z.gcd a b.            (* mpz_gcd: non-negative 
 Definition divI (a b : Z) : Z := Z.quot a b.           (* Integer::operator/ , /= : mpz_tdiv_q *)
 Definition absI (a : Z) : Z := if signI a >=? 0 then a else - a.
 Definition powI (a p : Z) : Z := a ^ p.                (* mpz_pow_ui, p >= 0 *)
-(* Integer::divmod(q,r,a,b) *)
+(* Integer::divmod(q,r,a,b) (gmp++_int_div.C, after 4a612f5): one mpz_fdiv_qr for b > 0, one mpz_cdiv_qr for b < 0, so that
+   0 <= r < |b| in both cases *)
 Definition divmodI (a b : Z) : Z * Z :=
-  let q := Z.quot a b in let r := Z.rem a b in
-  if r <? 0 then (if b >? 0 then (q - 1, r + b) else (q + 1, r - b)) else (q, r).
+  if b >? 0 then (a / b, a mod b)                            (* mpz_fdiv_qr *)
+  else (- ((- a) / b), a + ((- a) / b) * b).                  (* mpz_cdiv_qr: q = ceil(a/b), r = a - q*b *)
 Definition floorI (n d : Z) : Z := n / d.               (* mpz_fdiv_q *)
 Definition ceilI (n d : Z) : Z := - ((- n) / d).        (* mpz_cdiv_q *)
 
@@ -370,6 +371,10 @@ Definition q_areEqual (a b : rat) : bool := rcompare a b =? 0.
 (* operator int / int64_t / uint64_t / uint32_t (and the narrower ones through them): (T)(num / den), i.e. trunc,
    for values in the range of T (the Integer -> T conversion itself is C01) *)
 Definition conv_int (r : rat) : Z := divI (num r) (den r).
+(* the cast to the machine type T = [lo, hi] that follows: the identity inside the range; outside the range the
+   Integer -> T conversion is property C01's subject (None here) *)
+Definition cast_T (lo hi v : Z) : option Z := if (lo <=? v) && (v <=? hi) then Some v else None.
+Definition conv_int_T (lo hi : Z) (r : rat) : option Z := cast_T lo hi (divI (num r) (den r)).
 (* Rational::print (operator<<, QField::write): `if (den > 1) s << num << "/" << den; else s << num;` *)
 Definition print_den (r : rat) : option Z := if den r >? 1 then Some (den r) else None.
 
@@ -444,36 +449,208 @@ Definition to_float (r : rat) : option Z :=
   if (2 ^ 128 <=? fn) || (2 ^ 128 <=? fd) then None else
   Some (encode 24 (-149) 8 (num r <? 0) (rne_quot 24 (-149) fn fd)).
 
-(* ------------------------------------------------------------------ qfield.h wrappers on a store of objects *)
-(* Objects live in a store (index -> pair); a call names the objects passed for r, a, b, c (any of them may coincide).
-   Right-hand sides such as `a * b + c` are evaluated into temporaries on the store as it is at the call, then
-   assigned / accumulated into r; for the two-address forms the argument IS *this exactly when the indices coincide. *)
+(* ------------------------------------------------------------------ zero-denominator guards (frag/C10.fix-9) *)
+(* pow(x, y) with y < 0 and QField::inv / invin exchange numerator and denominator.  For a zero operand the bodies above
+   (pow_i64, q_inv, q_invin: the code up to fix-9, kept as the arithmetic part) store x/0; operator/ throws GivMathDivZero
+   in the same situation, and so do the guarded functions (None = GivMathDivZero). *)
+Definition pow_i64_g (x : rat) (y : Z) : option rat :=
+  if (y <? 0) && isZeroI (num x) then None else Some (pow_i64 x y).
+Definition q_invin_g (r : rat) : option rat := if signI (num r) =? 0 then None else Some (q_invin r).
+Definition q_inv_g (alias : bool) (a : rat) : option rat :=
+  if alias then q_invin_g a else if signI (num a) =? 0 then None else Some (q_inv false a).
+
+(* ------------------------------------------------------------------ in-place operators with the argument read through accessors *)
+(* The bodies of += -= *= /= once more, with every read of r.num / r.den going through rn / rd applied to the CURRENT state
+   of *this.  rn = fun _ => n is an argument that is a distinct object or a temporary; rn = num is `x op= x`.
+   (addin_body / subin_body / mulin / divin above are the instances the phase 1-3 proofs are about.) *)
+Section InPlaceG.
+  Variable rn rd : rat -> Z.
+  Definition addin_body_g (red : bool) (s : rat) : rat :=
+    if isZeroI (rn s) then s else
+    if isZero s then (let s := set_num s (rn s) in set_den s (rd s)) else
+    if isInteger s && isOneI (rd s) then set_num s (num s + rn s) else
+    if negb red then
+      let s := set_num s (num s * rd s) in
+      let s := set_num s (num s + rn s * den s) in
+      set_den s (den s * rd s)
+    else
+    let d1 := gcdI (den s) (rd s) in
+    if d1 =? 1 then
+      let s := set_num s (num s * rd s) in
+      let s := set_num s (num s + rn s * den s) in
+      set_den s (den s * rd s)
+    else
+    let s := set_num s (num s * divI (rd s) d1) in
+    let s := set_num s (num s + rn s * divI (den s) d1) in
+    let d2 := gcdI (num s) d1 in
+    let s := set_num s (divI (num s) d2) in
+    let s := set_den s (divI (den s) d1) in
+    let s := set_den s (den s * rd s) in
+    set_den s (divI (den s) d2).
+  Definition subin_body_g (red : bool) (s : rat) : rat :=
+    if isZeroI (rn s) then s else
+    if isZero s then (let s := set_num s (- rn s) in set_den s (rd s)) else
+    if isInteger s && isOneI (rd s) then set_num s (num s - rn s) else
+    if negb red then
+      let s := set_num s (num s * rd s) in
+      let s := set_num s (num s - rn s * den s) in
+      set_den s (den s * rd s)
+    else
+    let d1 := gcdI (den s) (rd s) in
+    if d1 =? 1 then
+      let s := set_num s (num s * rd s) in
+      let s := set_num s (num s - rn s * den s) in
+      set_den s (den s * rd s)
+    else
+    let s := set_num s (num s * divI (rd s) d1) in
+    let s := set_num s (num s - rn s * divI (den s) d1) in
+    let d2 := gcdI (num s) d1 in
+    let s := set_num s (divI (num s) d2) in
+    let s := set_den s (divI (den s) d1) in
+    let s := set_den s (den s * rd s) in
+    set_den s (divI (den s) d2).
+  Definition rarg_g (s : rat) : rat := (rn s, rd s).
+  Definition mulin_g (red : bool) (s : rat) : rat :=
+    if isZero (rarg_g s) then mk_word 0 else
+    if isZero s then s else
+    if isOne (rarg_g s) then s else
+    if isOne s then rarg_g s else
+    if isInteger s && isInteger (rarg_g s) then set_num s (num s * rn s) else
+    if (cmpabsI (den s) (rd s) =? 0) || negb red then
+      let s := set_num s (num s * rn s) in
+      set_den s (den s * rd s)
+    else
+    let d1 := gcdI (num s) (rd s) in
+    let d2 := gcdI (den s) (rn s) in
+    let s := set_num s (divI (num s) d1) in
+    let s := set_num s (num s * divI (rn s) d2) in
+    let s := set_den s (divI (den s) d2) in
+    set_den s (den s * divI (rd s) d1).
+  Definition divin_g (red : bool) (s : rat) : option rat :=
+    if isZero (rarg_g s) then None else
+    if isZero s then Some s else
+    if isOne (rarg_g s) then Some s else
+    if isOne s then
+      (if signI (rn s) <? 0 then
+         let s := set_num s (- rd s) in Some (set_den s (- rn s))
+       else
+         let s := set_num s (rd s) in Some (set_den s (rn s)))
+    else
+    if cmpI (den s) (rd s) =? 0 then
+      (if signI (rn s) <? 0 then
+         let s := set_den s (- rn s) in
+         let s := set_num s (- num s) in
+         Some (reduce s)
+       else
+         let s := set_den s (rn s) in Some (reduce s))
+    else
+    if negb red then
+      (if signI (rn s) <? 0 then
+         let s := set_num s (num s * rd s) in
+         let s := set_den s (den s * rn s) in
+         let s := set_num s (- num s) in
+         Some (set_den s (- den s))
+       else
+         let s := set_num s (num s * rd s) in
+         Some (set_den s (den s * rn s)))
+    else
+    let d1 := gcdI (num s) (rn s) in
+    let d2 := gcdI (den s) (rd s) in
+    let s := set_num s (divI (num s) d1) in
+    let s := set_num s (num s * divI (rd s) d2) in
+    let s := set_den s (divI (den s) d2) in
+    let s := set_den s (den s * divI (rn s) d1) in
+    if signI (den s) <? 0 then
+      let s := set_num s (- num s) in Some (set_den s (- den s))
+    else Some s.
+End InPlaceG.
+
+(* ------------------------------------------------------------------ qfield.h wrappers, statement by statement on a store of objects *)
+(* Objects live in a store (index -> the two Integer members); a call names the objects passed for r, a, b, c (any of them
+   may coincide).  Every read and write of a member goes to the store as it is AT THAT POINT of the body.  Temporaries
+   (the results of the const operators + - * /, and `Rational(r)` in += / -=) are values: they are not objects of the store. *)
 Definition store := Z -> rat.
 Definition upd (s : store) (i : Z) (v : rat) : store := fun j => if j =? i then v else s j.
-Definition exec_add (red : bool) (s : store) (r a b : Z) : store := upd s r (radd red (s a) (s b)).
-Definition exec_sub (red : bool) (s : store) (r a b : Z) : store := upd s r (rsub red (s a) (s b)).
-Definition exec_mul (red : bool) (s : store) (r a b : Z) : store := upd s r (rmul red (s a) (s b)).
+Definition getn (s : store) (i : Z) : Z := num (s i).
+Definition getd (s : store) (i : Z) : Z := den (s i).
+Definition setn (s : store) (i v : Z) : store := upd s i (v, getd s i).
+Definition setd (s : store) (i v : Z) : store := upd s i (getn s i, v).
+(* Rational::operator=(const Rational& t) on object r, t a temporary: num.logcpy(t.num); den.logcpy(t.den) *)
+Definition assign_tmp (s : store) (r : Z) (t : rat) : store := setd (setn s r (num t)) r (den t).
+(* the same with an object of the store on the right: `if (this == &t) return *this;`, then the two members in turn *)
+Definition assign_obj (s : store) (r a : Z) : store :=
+  if r =? a then s else let s1 := setn s r (getn s a) in setd s1 r (getd s1 a).
+(* an in-place operator running on object r: every statement of the body updates the store; the argument's members are
+   read through rn / rd from the CURRENT store *)
+Definition inplace (body : (rat -> Z) -> (rat -> Z) -> bool -> rat -> rat) (red : bool) (s : store) (r : Z)
+                   (rn rd : store -> Z) : store :=
+  upd s r (body (fun cur => rn (upd s r cur)) (fun cur => rd (upd s r cur)) red (s r)).
+Definition inplace_opt (body : (rat -> Z) -> (rat -> Z) -> bool -> rat -> option rat) (red : bool) (s : store) (r : Z)
+                       (rn rd : store -> Z) : option store :=
+  match body (fun cur => rn (upd s r cur)) (fun cur => rd (upd s r cur)) red (s r) with
+  | Some v => Some (upd s r v) | None => None end.
+
+(* { return r = a + b; } etc.: the const operator builds a temporary from a and b, then operator= writes r *)
+Definition exec_add (red : bool) (s : store) (r a b : Z) : store := assign_tmp s r (radd red (s a) (s b)).
+Definition exec_sub (red : bool) (s : store) (r a b : Z) : store := assign_tmp s r (rsub red (s a) (s b)).
+Definition exec_mul (red : bool) (s : store) (r a b : Z) : store := assign_tmp s r (rmul red (s a) (s b)).
 Definition exec_div (red : bool) (s : store) (r a b : Z) : option store :=
-  match rdiv red (s a) (s b) with Some v => Some (upd s r v) | None => None end.
-Definition exec_axpy (red : bool) (s : store) (r a b c : Z) : store := upd s r (q_axpy red (s a) (s b) (s c)).
-Definition exec_maxpy (red : bool) (s : store) (r a b c : Z) : store := upd s r (q_maxpy red (s a) (s b) (s c)).
-Definition exec_axmy (red : bool) (s : store) (r a b c : Z) : store := upd s r (q_axmy red (s a) (s b) (s c)).
-Definition exec_axpyin (red : bool) (s : store) (r a b : Z) : store := upd s r (q_axpyin red (s r) (s a) (s b)).
-Definition exec_maxpyin (red : bool) (s : store) (r a b : Z) : store := upd s r (q_maxpyin red (s r) (s a) (s b)).
-Definition exec_axmyin (red : bool) (s : store) (r a b : Z) : store := upd s r (q_axmyin red (s r) (s a) (s b)).
-Definition exec_addin (red : bool) (s : store) (r a : Z) : store := upd s r (addin (a =? r) (s a) red (s r)).
-Definition exec_subin (red : bool) (s : store) (r a : Z) : store := upd s r (subin (a =? r) (s a) red (s r)).
-Definition exec_mulin (red : bool) (s : store) (r a : Z) : store := upd s r (mulin (a =? r) (s a) red (s r)).
+  match rdiv red (s a) (s b) with Some t => Some (assign_tmp s r t) | None => None end.
+(* { return r = a * b + c; }  { return r = c - a * b; }  { return r = a * b - c; }  { return r = a * b - r; } *)
+Definition exec_axpy (red : bool) (s : store) (r a b c : Z) : store :=
+  let t := rmul red (s a) (s b) in assign_tmp s r (radd red t (s c)).
+Definition exec_maxpy (red : bool) (s : store) (r a b c : Z) : store :=
+  let t := rmul red (s a) (s b) in assign_tmp s r (rsub red (s c) t).
+Definition exec_axmy (red : bool) (s : store) (r a b c : Z) : store :=
+  let t := rmul red (s a) (s b) in assign_tmp s r (rsub red t (s c)).
+Definition exec_axmyin (red : bool) (s : store) (r a b : Z) : store :=
+  let t := rmul red (s a) (s b) in assign_tmp s r (rsub red t (s r)).
+(* { return r += a * b; }  { return r -= a * b; }: the argument of the in-place operator is the temporary a * b *)
+Definition exec_axpyin (red : bool) (s : store) (r a b : Z) : store :=
+  let t := rmul red (s a) (s b) in inplace addin_body_g red s r (fun _ => num t) (fun _ => den t).
+Definition exec_maxpyin (red : bool) (s : store) (r a b : Z) : store :=
+  let t := rmul red (s a) (s b) in inplace subin_body_g red s r (fun _ => num t) (fun _ => den t).
+(* { return r += a; }: operator+= starts with `if (&a == this) return *this += Rational(a);` (a temporary copy) *)
+Definition exec_addin (red : bool) (s : store) (r a : Z) : store :=
+  if a =? r then (let t := s a in inplace addin_body_g red s r (fun _ => num t) (fun _ => den t))
+  else inplace addin_body_g red s r (fun st => getn st a) (fun st => getd st a).
+Definition exec_subin (red : bool) (s : store) (r a : Z) : store :=
+  if a =? r then (let t := s a in inplace subin_body_g red s r (fun _ => num t) (fun _ => den t))
+  else inplace subin_body_g red s r (fun st => getn st a) (fun st => getd st a).
+(* { return r *= a; }  { return r /= a; }: no guard, the members of a are read from the store while r is being written *)
+Definition exec_mulin (red : bool) (s : store) (r a : Z) : store :=
+  inplace mulin_g red s r (fun st => getn st a) (fun st => getd st a).
 Definition exec_divin (red : bool) (s : store) (r a : Z) : option store :=
-  match divin (a =? r) (s a) red (s r) with Some v => Some (upd s r v) | None => None end.
-Definition exec_neg (s : store) (r a : Z) : store := upd s r (q_neg (s a)).
-Definition exec_inv (s : store) (r a : Z) : store := upd s r (q_inv (a =? r) (s a)).
-Definition exec_assign (s : store) (r a : Z) : store := upd s r (s a).
-(* `r = a * b; return r += c;` (the seeded change C10-m6, kept as the counter-example): the second statement runs on
-   the store written by the first *)
+  inplace_opt divin_g red s r (fun st => getn st a) (fun st => getd st a).
+(* neg: Integer::neg(r.num, a.num); r.den = a.den; *)
+Definition exec_neg (s : store) (r a : Z) : store :=
+  let s1 := setn s r (- getn s a) in setd s1 r (getd s1 a).
+Definition exec_negin (s : store) (r : Z) : store := setn s r (- getn s r).
+(* invin: snum = sign(r.num); [throw]; std::swap(r.num, r.den); if (snum < 0) { negin(r.num); negin(r.den); } *)
+Definition exec_invin (s : store) (r : Z) : option store :=
+  let snum := signI (getn s r) in
+  if snum =? 0 then None else
+  let n := getn s r in let d := getd s r in
+  let s1 := setd (setn s r d) r n in
+  Some (if snum <? 0 then (let s2 := setn s1 r (- getn s1 r) in setd s2 r (- getd s2 r)) else s1).
+(* inv: if (&r == &a) return invin(r); snum = sign(a.num); [throw]; r.num = a.den; r.den = a.num; if (snum < 0) ... *)
+Definition exec_inv (s : store) (r a : Z) : option store :=
+  if r =? a then exec_invin s r else
+  let snum := signI (getn s a) in
+  if snum =? 0 then None else
+  let s1 := setn s r (getd s a) in
+  let s2 := setd s1 r (getn s1 a) in
+  Some (if snum <? 0 then (let s3 := setn s2 r (- getn s2 r) in setd s3 r (- getd s3 r)) else s2).
+(* inv as it was before 4bcc635 (no alias guard), kept as the counter-example *)
+Definition exec_inv_unguarded (s : store) (r a : Z) : store :=
+  let snum := signI (getn s a) in
+  let s1 := setn s r (getd s a) in
+  let s2 := setd s1 r (getn s1 a) in
+  if snum <? 0 then (let s3 := setn s2 r (- getn s2 r) in setd s3 r (- getd s3 r)) else s2.
+Definition exec_assign (s : store) (r a : Z) : store := assign_obj s r a.
+(* `r = a * b; return r += c;` (the seeded change C10-m6, kept as the counter-example) *)
 Definition exec_axpy_two_step (red : bool) (s : store) (r a b c : Z) : store :=
-  let s1 := upd s r (rmul red (s a) (s b)) in
-  upd s1 r (addin (c =? r) (s1 c) red (s1 r)).
+  let s1 := assign_tmp s r (rmul red (s a) (s b)) in exec_addin red s1 r c.
 
 (* ------------------------------------------------------------------ wrappers for extraction *)
 Definition optpair (o : option rat) : bool * rat := match o with Some r => (true, r) | None => (false, (0, 0)) end.
